@@ -45,14 +45,15 @@ Lemma vet_vetd wanted required d :
   vet wanted required d = match vetd wanted d with Found k v => OFound (Found k v) | NotFound => fail required end.
 Proof. destruct d as [|k v]; cbn; [reflexivity|]. destruct (check_version wanted v); reflexivity. Qed.
 
-Lemma gsd_offer w h st s var wanted n :
-  h_names h = [n] -> cache_covered st -> get_subproject st s = true ->
-  get_subproject_dep w h st s var wanted = Some (vetd wanted (sub_offer w st s var n)).
+Lemma gsd_offer w h st s var wanted sk n :
+  h_names h = [ident sk n] -> cache_covered st -> get_subproject st s = true ->
+  get_subproject_dep w h st s var wanted = Some (vetd wanted (sub_offer w st s var sk n)).
 Proof.
   intros Hn Hc Hs. unfold get_subproject_dep, sub_offer. rewrite Hs, Hn. cbn [negb first_cached first_varname].
-  destruct (assoc n (s_over st)) as [[d e]|] eqn:Ho.
-  - rewrite (cached_some h st n wanted d e Ho). reflexivity.
-  - rewrite (cached_none h st n wanted Hc Ho).
+  change (base (ident sk n)) with n.
+  destruct (assoc (ident sk n) (s_over st)) as [[d e]|] eqn:Ho.
+  - rewrite (cached_some h st _ wanted d e Ho). reflexivity.
+  - rewrite (cached_none h st _ wanted Hc Ho).
     destruct (if truthy var then var else if truthy (get_varname w s n) then get_varname w s n else None) as [[|c vn]|];
       try reflexivity.
     destruct (assoc s (w_subs w)) as [sd|]; [|reflexivity].
@@ -75,24 +76,39 @@ Proof.
   apply assoc_app_none.
 Qed.
 
-Lemma add_overrides_grows l : forall over over' m,
-  add_overrides over l = Ok over' -> assoc m over' = None -> assoc m over = None.
+Lemma override_dep_grows over n sk dl d over' m :
+  override_dep over n sk dl d = Ok over' -> assoc m over' = None -> assoc m over = None.
 Proof.
-  induction l as [|[n d] r IH]; cbn; intros over over' m H Hn.
-  - inversion H; subst; assumption.
-  - destruct (add_override over n d true) as [o1|] eqn:E; [|discriminate].
-    eapply add_override_grows; eauto.
+  unfold override_dep. destruct n as [|c n']; [discriminate|].
+  destruct sk as [b|].
+  - intros H Hm. apply (add_override_grows _ _ _ _ _ _ H) in Hm.
+    destruct (assoc (ident None (c :: n')) over); [exact Hm|]. eapply assoc_app_none; eauto.
+  - destruct (add_override over (ident None (c :: n')) d true) as [o1|] eqn:E1; [|discriminate].
+    destruct dl.
+    + intros H Hm. eapply add_override_grows; eauto. eapply add_override_grows; eauto.
+    + intros H Hm. eapply add_override_grows; eauto. eapply add_override_grows; eauto.
+    + destruct (add_override o1 (ident (Some true) (c :: n')) d true) as [o2|] eqn:E2; [|discriminate].
+      intros H Hm. eapply add_override_grows; eauto. eapply add_override_grows; eauto. eapply add_override_grows; eauto.
 Qed.
 
-Lemma do_subproject_covered w st s req st' :
-  do_subproject w st s req = Ok st' -> cache_covered st -> cache_covered st'.
+Lemma add_overrides_grows dl l : forall over over' m,
+  add_overrides over dl l = Ok over' -> assoc m over' = None -> assoc m over = None.
+Proof.
+  induction l as [|[[n sk] d] r IH]; cbn; intros over over' m H Hn.
+  - inversion H; subst; assumption.
+  - destruct (override_dep over n sk dl d) as [o1|] eqn:E; [|discriminate].
+    eapply override_dep_grows; eauto.
+Qed.
+
+Lemma do_subproject_covered w st s req dl st' :
+  do_subproject w st s req dl = Ok st' -> cache_covered st -> cache_covered st'.
 Proof.
   unfold do_subproject. destruct s as [|c s']; [discriminate|].
   destruct (assoc (c :: s') (s_subs st)) as [f|].
   { destruct (req && negb f); [discriminate|]. intros H; inversion H; subst; auto. }
   destruct (assoc (c :: s') (w_subs w)) as [sd|].
   2:{ destruct req; [discriminate|]. intros H; inversion H; subst. intros Hc n; cbn; auto. }
-  destruct (if sd_fails sd then Err else add_overrides (s_over st) (sd_overrides sd)) as [ov|] eqn:E.
+  destruct (if sd_fails sd then Err else add_overrides (s_over st) dl (sd_overrides sd)) as [ov|] eqn:E.
   2:{ destruct req; [discriminate|]. intros H; inversion H; subst. intros Hc n; cbn; auto. }
   intros H; inversion H; subst; clear H. intros Hc n; cbn. intros Hn. apply Hc.
   destruct (sd_fails sd); [discriminate|]. eapply add_overrides_grows; eauto.
@@ -122,72 +138,74 @@ Lemma try_cands_cons w h wanted required c rest st :
 Proof. reflexivity. Qed.
 
 (* the candidate loop with a fallback subproject s *)
-Lemma cands_sub w st n wanted required allow s var force nofb :
+Lemma cands_sub w st sk n wanted required allow s var force nofb dl :
   cache_covered st -> truthy (Some s) = true ->
-  let h := mkHolder [n] allow (Some s) var force nofb in
+  let h := mkHolder [ident sk n] allow (Some s) var force nofb dl in
   fst (try_cands w h wanted required (candidates h) st) =
-  match assoc n (s_over st) with
+  match assoc (ident sk n) (s_over st) with
   | Some (d, _) => vet wanted required d
   | None =>
-      if get_subproject st s then vet wanted required (sub_offer w st s var n)
-      else if force then use_subproject w st s var n wanted required
+      if get_subproject st s then vet wanted required (sub_offer w st s var sk n)
+      else if force then use_subproject w st s var sk n wanted required dl
       else match system_dep w n wanted with
            | Some d => OFound d
-           | None => if nofb then fail required else use_subproject w st s var n wanted required
+           | None => if nofb then fail required else use_subproject w st s var sk n wanted required dl
            end
   end.
 Proof.
-  intros Hc Ht h.
+  intros Hc Ht h. set (k := ident sk n) in *.
   assert (Hsub : forall st0, cache_covered st0 ->
      fst (try_cands w h wanted required [CSub s] st0) =
-     if negb force && nofb then fail required else use_subproject w st0 s var n wanted required).
-  { intros st0 Hc0. cbn [try_cands run_cand is_nil h h_force h_nofb h_spvar]. rewrite andb_true_r.
+     if negb force && nofb then fail required else use_subproject w st0 s var sk n wanted required dl).
+  { intros st0 Hc0. cbn [try_cands run_cand is_nil h h_force h_nofb h_spvar h_dl]. rewrite andb_true_r.
     destruct (negb force && nofb).
     - cbn. destruct required; reflexivity.
-    - unfold use_subproject. destruct (do_subproject w st0 s required) as [st'|] eqn:Ed; [|reflexivity].
+    - unfold use_subproject. destruct (do_subproject w st0 s required dl) as [st'|] eqn:Ed; [|reflexivity].
       destruct (get_subproject st' s) eqn:Eg.
-      + rewrite (gsd_offer w h st' s var wanted n eq_refl (do_subproject_covered _ _ _ _ _ Ed Hc0) Eg).
-        rewrite vet_vetd. destruct (vetd wanted (sub_offer w st' s var n)); [|reflexivity].
+      + rewrite (gsd_offer w h st' s var wanted sk n eq_refl (do_subproject_covered _ _ _ _ _ _ Ed Hc0) Eg).
+        rewrite vet_vetd. destruct (vetd wanted (sub_offer w st' s var sk n)); [|reflexivity].
         destruct required; reflexivity.
       + unfold get_subproject_dep. rewrite Eg. cbn. destruct required; reflexivity. }
-  unfold candidates. cbn [h h_names h_spname h_force map app]. rewrite Ht.
-  destruct (assoc n (s_over st)) as [[d e]|] eqn:Ho.
+  unfold candidates. cbn [h h_names h_spname h_force map app]. rewrite Ht. fold k.
+  destruct (assoc k (s_over st)) as [[d e]|] eqn:Ho.
   { destruct force; cbn [negb orb app]; rewrite try_cands_cons; cbn [run_cand is_nil];
-      rewrite (cached_some h st n wanted d e Ho), vet_vetd; fold (vetd wanted d);
+      rewrite (cached_some h st k wanted d e Ho), vet_vetd; fold (vetd wanted d);
       destruct (vetd wanted d); try reflexivity; destruct required; reflexivity. }
   destruct force; cbn [negb orb andb app]; rewrite try_cands_cons; cbn [run_cand is_nil];
-    rewrite (cached_none h st n wanted Hc Ho), andb_false_r; rewrite try_cands_cons; cbn [run_cand is_nil h_spvar h].
+    rewrite (cached_none h st k wanted Hc Ho), andb_false_r; rewrite try_cands_cons; cbn [run_cand is_nil h_spvar h].
   - (* forced *)
     destruct (get_subproject st s) eqn:Eg.
-    + rewrite (gsd_offer w h st s var wanted n eq_refl Hc Eg), vet_vetd.
-      destruct (vetd wanted (sub_offer w st s var n)); [|reflexivity]. destruct required; reflexivity.
+    + rewrite (gsd_offer w h st s var wanted sk n eq_refl Hc Eg), vet_vetd.
+      destruct (vetd wanted (sub_offer w st s var sk n)); [|reflexivity]. destruct required; reflexivity.
     + rewrite andb_false_r, (Hsub st Hc). reflexivity.
   - destruct (get_subproject st s) eqn:Eg.
-    + rewrite (gsd_offer w h st s var wanted n eq_refl Hc Eg), vet_vetd.
-      destruct (vetd wanted (sub_offer w st s var n)); [|reflexivity]. destruct required; reflexivity.
+    + rewrite (gsd_offer w h st s var wanted sk n eq_refl Hc Eg), vet_vetd.
+      destruct (vetd wanted (sub_offer w st s var sk n)); [|reflexivity]. destruct required; reflexivity.
     + rewrite andb_false_r, try_cands_cons. cbn [run_cand is_nil]. rewrite andb_false_r. unfold system_dep.
+      unfold k. cbn [base ident].
       destruct (assoc n (w_sys w)) as [v|].
       * destruct (sys_check wanted v); [reflexivity|]. rewrite (Hsub st Hc). reflexivity.
       * rewrite (Hsub st Hc). reflexivity.
 Qed.
 
 (* ... and without one *)
-Lemma cands_nosub w st n wanted required allow var force nofb :
+Lemma cands_nosub w st sk n wanted required allow var force nofb dl :
   cache_covered st ->
-  let h := mkHolder [n] allow None var force nofb in
+  let h := mkHolder [ident sk n] allow None var force nofb dl in
   fst (try_cands w h wanted required (candidates h) st) =
-  match assoc n (s_over st) with
+  match assoc (ident sk n) (s_over st) with
   | Some (d, _) => vet wanted required d
   | None => match system_dep w n wanted with Some d => OFound d | None => fail required end
   end.
 Proof.
-  intros Hc h. unfold candidates. cbn [h h_names h_spname h_force truthy map app negb]. rewrite orb_true_r.
-  cbn [app]. rewrite try_cands_cons. cbn [run_cand is_nil].
-  destruct (assoc n (s_over st)) as [[d e]|] eqn:Ho.
-  { rewrite (cached_some h st n wanted d e Ho), vet_vetd; fold (vetd wanted d).
+  intros Hc h. set (k := ident sk n) in *.
+  unfold candidates. cbn [h h_names h_spname h_force truthy map app negb]. rewrite orb_true_r.
+  cbn [app]. rewrite try_cands_cons. cbn [run_cand is_nil]. fold k.
+  destruct (assoc k (s_over st)) as [[d e]|] eqn:Ho.
+  { rewrite (cached_some h st k wanted d e Ho), vet_vetd; fold (vetd wanted d).
     destruct (vetd wanted d); try reflexivity; destruct required; reflexivity. }
-  rewrite (cached_none h st n wanted Hc Ho), andb_false_r, try_cands_cons. cbn [run_cand is_nil].
-  rewrite andb_true_r. unfold system_dep.
+  rewrite (cached_none h st k wanted Hc Ho), andb_false_r, try_cands_cons. cbn [run_cand is_nil].
+  rewrite andb_true_r. unfold system_dep. unfold k. cbn [base ident].
   destruct (assoc n (w_sys w)) as [v|].
   - destruct (sys_check wanted v); [reflexivity|]. destruct required; reflexivity.
   - destruct required; reflexivity.
@@ -207,7 +225,7 @@ Proof.
   assert (Hfil : filter (fun x : list char => negb (is_nil x)) [n] = [n]) by (cbn; rewrite Hnil; reflexivity).
   rewrite Hfil, names_ok_single, Hnil. cbn [negb andb].
   destruct (bad_name n); [reflexivity|]. cbn [negb].
-  destruct kw as [required wanted allow fb]. cbn [k_required k_version k_allow k_fallback] in *.
+  destruct kw as [required wanted allow fb sk dlo]. cbn [k_required k_version k_allow k_fallback k_static k_deflib] in *.
   cbn [existsb]. rewrite orb_false_r.
   destruct fb as [l|].
   - (* explicit fallback: *)
@@ -216,16 +234,16 @@ Proof.
     + (* fallback: [] *)
       cbn [truthy negb andb]. cbv zeta.
       rewrite cands_nonempty by (cbn; congruence). cbn [andb].
-      apply (cands_nosub w st n wanted required (Some false) None _ _ Hc).
+      apply (cands_nosub w st sk n wanted required (Some false) None _ _ _ Hc).
     + destruct s as [|c s']; [contradiction|].
       cbn [truthy negb andb]. cbv zeta.
       rewrite cands_nonempty by (cbn; congruence). cbn [andb].
-      rewrite (cands_sub w st n wanted required None (c :: s') None _ _ Hc eq_refl).
+      rewrite (cands_sub w st sk n wanted required None (c :: s') None _ _ _ Hc eq_refl).
       unfold forced. reflexivity.
     + destruct s as [|c s']; [contradiction|].
       cbn [truthy negb andb]. cbv zeta.
       rewrite cands_nonempty by (cbn; congruence). cbn [andb].
-      rewrite (cands_sub w st n wanted required None (c :: s') (Some v) _ _ Hc eq_refl).
+      rewrite (cands_sub w st sk n wanted required None (c :: s') (Some v) _ _ _ Hc eq_refl).
       unfold forced. reflexivity.
   - (* no explicit fallback *)
     cbn [truthy negb andb]. rewrite orb_false_r.
@@ -234,196 +252,29 @@ Proof.
       cbn [implicit_provider].
       destruct (find_dep_provider w n) as [[[|c s'] var]|]; cbn [negb]; cbv beta iota zeta.
       * rewrite cands_nonempty by (cbn; congruence). cbn [andb].
-        apply (cands_nosub w st n wanted required (Some true) None _ _ Hc).
+        apply (cands_nosub w st sk n wanted required (Some true) None _ _ _ Hc).
       * unfold forced. rewrite orb_true_r. cbn [orb]. cbv beta iota zeta.
         rewrite cands_nonempty by (cbn; congruence). cbn [andb].
-        rewrite (cands_sub w st n wanted required (Some true) (c :: s') var _ _ Hc eq_refl).
+        rewrite (cands_sub w st sk n wanted required (Some true) (c :: s') var _ _ _ Hc eq_refl).
         reflexivity.
       * rewrite cands_nonempty by (cbn; congruence). cbn [andb].
-        apply (cands_nosub w st n wanted required (Some true) None _ _ Hc).
+        apply (cands_nosub w st sk n wanted required (Some true) None _ _ _ Hc).
     + (* allow_fallback: false *)
       cbn [negb]. cbv beta iota zeta. rewrite cands_nonempty by (cbn; congruence). cbn [andb].
-      apply (cands_nosub w st n wanted required (Some false) None _ _ Hc).
+      apply (cands_nosub w st sk n wanted required (Some false) None _ _ _ Hc).
     + cbn [implicit_provider].
       destruct (find_dep_provider w n) as [[[|c s'] var]|]; cbn [negb]; cbv beta iota zeta.
       * rewrite cands_nonempty by (cbn; congruence). cbn [andb].
-        apply (cands_nosub w st n wanted required None None _ _ Hc).
+        apply (cands_nosub w st sk n wanted required None None _ _ _ Hc).
       * unfold forced. rewrite orb_false_r.
         destruct (is_forcefallback (o_wrap_mode o) || str_mem n (o_fff o) || str_mem (c :: s') (o_fff o)
                   || required || get_subproject st (c :: s')) eqn:E; cbv beta iota zeta.
         -- rewrite cands_nonempty by (cbn; congruence). cbn [andb].
-           rewrite (cands_sub w st n wanted required None (c :: s') var _ _ Hc eq_refl). reflexivity.
+           rewrite (cands_sub w st sk n wanted required None (c :: s') var _ _ _ Hc eq_refl). reflexivity.
         -- rewrite cands_nonempty by (cbn; congruence). cbn [andb].
-           apply (cands_nosub w st n wanted required None None _ _ Hc).
+           apply (cands_nosub w st sk n wanted required None None _ _ _ Hc).
       * rewrite cands_nonempty by (cbn; congruence). cbn [andb].
-        apply (cands_nosub w st n wanted required None None _ _ Hc).
-Qed.
-
-(* ------------------------------------------------------------------ closed form with states *)
-Definition fin (n : str) (r : outcome) (st : state) : outcome * state :=
-  match r with
-  | OFound d => (r, mkState (register (s_over st) [n] d) (s_cache st) (s_subs st))
-  | _ => (r, st)
-  end.
-
-Definition sub_path w st s var n wanted required : outcome * state :=
-  match do_subproject w st s required with
-  | Err => (OErr, st)
-  | Ok st' => if get_subproject st' s
-              then fin n (vet wanted required (sub_offer w st' s var n)) st'
-              else (fail required, st')
-  end.
-
-Definition sys_path w st n wanted (otherwise : outcome * state) : outcome * state :=
-  match assoc n (w_sys w) with
-  | Some v => if sys_check wanted v
-              then fin n (OFound (Found KSystem v)) (mkState (s_over st) (assoc_put n v (s_cache st)) (s_subs st))
-              else otherwise
-  | None => otherwise
-  end.
-
-Definition closed_sub w st n wanted required s var (force nofb : bool) : outcome * state :=
-  match assoc n (s_over st) with
-  | Some (d, _) => fin n (vet wanted required d) st
-  | None =>
-      if get_subproject st s then fin n (vet wanted required (sub_offer w st s var n)) st
-      else if force then sub_path w st s var n wanted required
-      else sys_path w st n wanted
-             (if nofb then (fail required, st) else sub_path w st s var n wanted required)
-  end.
-
-Definition closed_nosub w st n wanted required : outcome * state :=
-  match assoc n (s_over st) with
-  | Some (d, _) => fin n (vet wanted required d) st
-  | None => sys_path w st n wanted (fail required, st)
-  end.
-
-Lemma fin_vetd n wanted required d st :
-  fin n (vet wanted required d) st =
-  match vetd wanted d with
-  | Found k v => (OFound (Found k v), mkState (register (s_over st) [n] (Found k v)) (s_cache st) (s_subs st))
-  | NotFound => if required then (OErr, st) else (ONotFound, st)
-  end.
-Proof.
-  rewrite vet_vetd. destruct (vetd wanted d); cbn; [destruct required; reflexivity|reflexivity].
-Qed.
-
-Lemma cands_sub_full w st n wanted required allow s var force nofb :
-  cache_covered st -> truthy (Some s) = true ->
-  let h := mkHolder [n] allow (Some s) var force nofb in
-  try_cands w h wanted required (candidates h) st = closed_sub w st n wanted required s var force nofb.
-Proof.
-  intros Hc Ht h.
-  assert (Hsub : forall st0, cache_covered st0 ->
-     try_cands w h wanted required [CSub s] st0 =
-     if negb force && nofb then (fail required, st0) else sub_path w st0 s var n wanted required).
-  { intros st0 Hc0. cbn [try_cands run_cand is_nil h h_force h_nofb h_spvar]. rewrite andb_true_r.
-    destruct (negb force && nofb).
-    - cbn. destruct required; reflexivity.
-    - unfold sub_path. destruct (do_subproject w st0 s required) as [st'|] eqn:Ed; [|reflexivity].
-      destruct (get_subproject st' s) eqn:Eg.
-      + rewrite (gsd_offer w h st' s var wanted n eq_refl (do_subproject_covered _ _ _ _ _ Ed Hc0) Eg).
-        rewrite fin_vetd. destruct (vetd wanted (sub_offer w st' s var n)); reflexivity.
-      + unfold get_subproject_dep. rewrite Eg. cbn. destruct required; reflexivity. }
-  unfold candidates, closed_sub. cbn [h h_names h_spname h_force map app]. rewrite Ht.
-  destruct (assoc n (s_over st)) as [[d e]|] eqn:Ho.
-  { destruct force; cbn [negb orb app]; rewrite try_cands_cons; cbn [run_cand is_nil];
-      rewrite (cached_some h st n wanted d e Ho), fin_vetd; fold (vetd wanted d);
-      destruct (vetd wanted d); reflexivity. }
-  destruct force; cbn [negb orb andb app]; rewrite try_cands_cons; cbn [run_cand is_nil];
-    rewrite (cached_none h st n wanted Hc Ho), andb_false_r; rewrite try_cands_cons; cbn [run_cand is_nil h_spvar h].
-  - destruct (get_subproject st s) eqn:Eg.
-    + rewrite (gsd_offer w h st s var wanted n eq_refl Hc Eg), fin_vetd.
-      destruct (vetd wanted (sub_offer w st s var n)); reflexivity.
-    + rewrite andb_false_r, (Hsub st Hc). reflexivity.
-  - destruct (get_subproject st s) eqn:Eg.
-    + rewrite (gsd_offer w h st s var wanted n eq_refl Hc Eg), fin_vetd.
-      destruct (vetd wanted (sub_offer w st s var n)); reflexivity.
-    + rewrite andb_false_r, try_cands_cons. cbn [run_cand is_nil]. rewrite andb_false_r. unfold sys_path.
-      destruct (assoc n (w_sys w)) as [v|].
-      * destruct (sys_check wanted v); [reflexivity|]. rewrite (Hsub st Hc). reflexivity.
-      * rewrite (Hsub st Hc). reflexivity.
-Qed.
-
-Lemma cands_nosub_full w st n wanted required allow var force nofb :
-  cache_covered st ->
-  let h := mkHolder [n] allow None var force nofb in
-  try_cands w h wanted required (candidates h) st = closed_nosub w st n wanted required.
-Proof.
-  intros Hc h. unfold candidates, closed_nosub. cbn [h h_names h_spname h_force truthy map app negb]. rewrite orb_true_r.
-  cbn [app]. rewrite try_cands_cons. cbn [run_cand is_nil].
-  destruct (assoc n (s_over st)) as [[d e]|] eqn:Ho.
-  { rewrite (cached_some h st n wanted d e Ho), fin_vetd; fold (vetd wanted d).
-    destruct (vetd wanted d); reflexivity. }
-  rewrite (cached_none h st n wanted Hc Ho), andb_false_r, try_cands_cons. cbn [run_cand is_nil].
-  rewrite andb_true_r. unfold sys_path.
-  destruct (assoc n (w_sys w)) as [v|].
-  - destruct (sys_check wanted v); [reflexivity|]. destruct required; reflexivity.
-  - destruct required; reflexivity.
-Qed.
-
-(* lookup for one name, in closed form *)
-Definition lookup1 w o st n kw : outcome * state :=
-  if bad_name n then (OErr, st) else
-  match fallback_of w o st n kw with
-  | FbInvalid => (OErr, st)
-  | FbSub s var => closed_sub w st n (k_version kw) (k_required kw) s var (forced o n s) (is_nofallback (o_wrap_mode o))
-  | FbNone => closed_nosub w st n (k_version kw) (k_required kw)
-  end.
-
-Lemma lookup_closed w o st n kw :
-  n <> [] -> cache_covered st -> fallback_named kw -> lookup w o st [n] kw = lookup1 w o st n kw.
-Proof.
-  intros Hn Hc Hf. unfold lookup, lookup1, fallback_of, fallback_named in *.
-  assert (Hnil : is_nil n = false) by (destruct n; [congruence|reflexivity]).
-  assert (Hfil : filter (fun x : list char => negb (is_nil x)) [n] = [n]) by (cbn; rewrite Hnil; reflexivity).
-  rewrite Hfil, names_ok_single, Hnil. cbn [negb andb].
-  destruct (bad_name n); [reflexivity|]. cbn [negb].
-  destruct kw as [required wanted allow fb]. cbn [k_required k_version k_allow k_fallback] in *.
-  cbn [existsb]. rewrite orb_false_r.
-  destruct fb as [l|].
-  - destruct allow as [a|]; cbn [is_some]; [reflexivity|].
-    destruct l as [|s [|v [|x r]]]; try reflexivity.
-    + cbn [truthy negb andb]. cbv zeta.
-      rewrite cands_nonempty by (cbn; congruence). cbn [andb].
-      apply (cands_nosub_full w st n wanted required (Some false) None _ _ Hc).
-    + destruct s as [|c s']; [contradiction|].
-      cbn [truthy negb andb]. cbv zeta.
-      rewrite cands_nonempty by (cbn; congruence). cbn [andb].
-      rewrite (cands_sub_full w st n wanted required None (c :: s') None _ _ Hc eq_refl).
-      unfold forced. reflexivity.
-    + destruct s as [|c s']; [contradiction|].
-      cbn [truthy negb andb]. cbv zeta.
-      rewrite cands_nonempty by (cbn; congruence). cbn [andb].
-      rewrite (cands_sub_full w st n wanted required None (c :: s') (Some v) _ _ Hc eq_refl).
-      unfold forced. reflexivity.
-  - cbn [truthy negb andb]. rewrite orb_false_r.
-    destruct allow as [[|]|].
-    + cbn [implicit_provider].
-      destruct (find_dep_provider w n) as [[[|c s'] var]|]; cbn [negb]; cbv beta iota zeta.
-      * rewrite cands_nonempty by (cbn; congruence). cbn [andb].
-        apply (cands_nosub_full w st n wanted required (Some true) None _ _ Hc).
-      * unfold forced. rewrite orb_true_r. cbn [orb]. cbv beta iota zeta.
-        rewrite cands_nonempty by (cbn; congruence). cbn [andb].
-        rewrite (cands_sub_full w st n wanted required (Some true) (c :: s') var _ _ Hc eq_refl).
-        reflexivity.
-      * rewrite cands_nonempty by (cbn; congruence). cbn [andb].
-        apply (cands_nosub_full w st n wanted required (Some true) None _ _ Hc).
-    + cbn [negb]. cbv beta iota zeta. rewrite cands_nonempty by (cbn; congruence). cbn [andb].
-      apply (cands_nosub_full w st n wanted required (Some false) None _ _ Hc).
-    + cbn [implicit_provider].
-      destruct (find_dep_provider w n) as [[[|c s'] var]|]; cbn [negb]; cbv beta iota zeta.
-      * rewrite cands_nonempty by (cbn; congruence). cbn [andb].
-        apply (cands_nosub_full w st n wanted required None None _ _ Hc).
-      * unfold forced. rewrite orb_false_r.
-        destruct (is_forcefallback (o_wrap_mode o) || str_mem n (o_fff o) || str_mem (c :: s') (o_fff o)
-                  || required || get_subproject st (c :: s')) eqn:E; cbv beta iota zeta.
-        -- rewrite cands_nonempty by (cbn; congruence). cbn [andb].
-           rewrite (cands_sub_full w st n wanted required None (c :: s') var _ _ Hc eq_refl). reflexivity.
-        -- rewrite cands_nonempty by (cbn; congruence). cbn [andb].
-           apply (cands_nosub_full w st n wanted required None None _ _ Hc).
-      * rewrite cands_nonempty by (cbn; congruence). cbn [andb].
-        apply (cands_nosub_full w st n wanted required None None _ _ Hc).
+        apply (cands_nosub w st sk n wanted required None None _ _ _ Hc).
 Qed.
 
 (* ------------------------------------------------------------------ repeated lookups *)
@@ -451,65 +302,9 @@ Proof. intros H. cbn. rewrite H. reflexivity. Qed.
 Lemma state_eta st : mkState (s_over st) (s_cache st) (s_subs st) = st.
 Proof. destruct st; reflexivity. Qed.
 
-Definition kw_invalid (kw : kwargs) : bool :=
-  match k_fallback kw with
-  | Some l => if is_some (k_allow kw) then true
-              else match l with [] | [_] | [_; _] => false | _ => true end
-  | None => false
-  end.
-
-Lemma fallback_invalid w o st n kw : fallback_of w o st n kw = FbInvalid <-> kw_invalid kw = true.
-Proof.
-  unfold fallback_of, kw_invalid. destruct (k_fallback kw) as [l|].
-  - destruct (is_some (k_allow kw)); [tauto|].
-    destruct l as [|a [|b [|c r]]]; split; intros; try discriminate; reflexivity.
-  - split; [|discriminate].
-    destruct (k_allow kw) as [[|]|]; try discriminate;
-      destruct (find_dep_provider w n) as [[[|c s] var]|]; try discriminate;
-      match goal with |- context [if ?b then _ else _] => destruct b end; discriminate.
-Qed.
-
-Lemma lookup1_hit w o st n kw k v e :
-  bad_name n = false -> kw_invalid kw = false ->
-  assoc n (s_over st) = Some (Found k v, e) -> check_version (k_version kw) v = true ->
-  lookup1 w o st n kw = (OFound (Found k v), st).
-Proof.
-  intros Hb Hk Ho Hv. unfold lookup1. rewrite Hb.
-  destruct (fallback_of w o st n kw) as [|s var|] eqn:Ef.
-  - unfold closed_nosub. rewrite Ho. cbn [vet]. rewrite Hv. cbn [fin].
-    rewrite (register_present _ _ _ _ Ho), state_eta. reflexivity.
-  - unfold closed_sub. rewrite Ho. cbn [vet]. rewrite Hv. cbn [fin].
-    rewrite (register_present _ _ _ _ Ho), state_eta. reflexivity.
-  - apply fallback_invalid in Ef. congruence.
-Qed.
-
-Lemma fin_vet_cases n wanted required d st r st1 :
-  (assoc n (s_over st) = None \/ exists e, assoc n (s_over st) = Some (d, e)) ->
-  fin n (vet wanted required d) st = (r, st1) -> r <> OErr ->
-  (r = ONotFound /\ st1 = st /\ vet wanted required d = ONotFound) \/
-  (exists k v e, r = OFound (Found k v) /\ d = Found k v /\ check_version wanted v = true
-                 /\ assoc n (s_over st1) = Some (Found k v, e)).
-Proof.
-  intros Hov H Hr. destruct (vet wanted required d) as [d'| |] eqn:Ev; cbn [fin] in H; inversion H; subst; clear H.
-  - right. destruct d' as [|k v]; [destruct d as [|k' v']; cbn in Ev; [destruct required; discriminate|
-      destruct (check_version wanted v'); [discriminate|destruct required; discriminate]]|].
-    apply vet_found in Ev. destruct Ev as [-> Hv].
-    destruct Hov as [Hn|[e He]].
-    + exists k, v, false. repeat split; auto. cbn [s_over]. rewrite Hn. apply assoc_app_new; assumption.
-    + exists k, v, e. repeat split; auto. cbn [s_over]. rewrite He. assumption.
-  - left. auto.
-  - congruence.
-Qed.
-
-Lemma sub_offer_compat w st s var n :
-  assoc n (s_over st) = None \/ exists e, assoc n (s_over st) = Some (sub_offer w st s var n, e).
-Proof.
-  unfold sub_offer. destruct (assoc n (s_over st)) as [[d e]|]; [right; exists e; reflexivity|left; reflexivity].
-Qed.
-
-Lemma dsp_disabled w o c s :
+Lemma dsp_disabled w o c s dl :
   s <> [] -> assoc s (s_subs o) = None ->
-  do_subproject w (mkState (s_over o) c (s_subs o ++ [(s, false)])) s false =
+  do_subproject w (mkState (s_over o) c (s_subs o ++ [(s, false)])) s false dl =
   Ok (mkState (s_over o) c (s_subs o ++ [(s, false)])).
 Proof.
   intros Hs Es. unfold do_subproject. destruct s as [|a s']; [congruence|].
@@ -524,10 +319,10 @@ Proof.
   rewrite (assoc_app_some _ _ _ _ Ex). auto.
 Qed.
 
-Lemma dsp_spec w st s req st' :
-  do_subproject w st s req = Ok st' ->
+Lemma dsp_spec w st s req dl st' :
+  do_subproject w st s req dl = Ok st' ->
   s_cache st' = s_cache st /\
-  (get_subproject st' s = false -> s_over st' = s_over st /\ do_subproject w st' s false = Ok st') /\
+  (get_subproject st' s = false -> s_over st' = s_over st /\ forall dl', do_subproject w st' s false dl' = Ok st') /\
   (forall x, get_subproject st x = true -> get_subproject st' x = true).
 Proof.
   intros H. assert (Hs : s <> []) by (intros ->; discriminate H).
@@ -535,37 +330,22 @@ Proof.
   destruct (assoc s (s_subs st)) as [f|] eqn:Es.
   { destruct (req && negb f) eqn:E; [discriminate|]. inversion H; subst; clear H.
     split; [reflexivity|split; [|auto]]. intros Hg. unfold get_subproject in Hg. rewrite Es in Hg.
-    destruct f; [discriminate|]. split; [reflexivity|].
+    destruct f; [discriminate|]. split; [reflexivity|]. intros dl'.
     unfold do_subproject. fold s. rewrite Es. reflexivity. }
   assert (Hdis : st' = mkState (s_over st) (s_cache st) (s_subs st ++ [(s, false)]) ->
      s_cache st' = s_cache st /\
-     (get_subproject st' s = false -> s_over st' = s_over st /\ do_subproject w st' s false = Ok st') /\
+     (get_subproject st' s = false -> s_over st' = s_over st /\ forall dl', do_subproject w st' s false dl' = Ok st') /\
      (forall x, get_subproject st x = true -> get_subproject st' x = true)).
   { intros ->. split; [reflexivity|split].
-    - intros _. split; [reflexivity|]. apply dsp_disabled; assumption.
+    - intros _. split; [reflexivity|]. intros dl'. apply dsp_disabled; assumption.
     - intros x. apply get_subproject_app. }
   destruct (assoc s (w_subs w)) as [sd|] eqn:Ew.
   2:{ destruct req; [discriminate|]. inversion H; subst; clear H. apply Hdis; reflexivity. }
-  destruct (if sd_fails sd then Err else add_overrides (s_over st) (sd_overrides sd)) as [ov|] eqn:E.
+  destruct (if sd_fails sd then Err else add_overrides (s_over st) dl (sd_overrides sd)) as [ov|] eqn:E.
   2:{ destruct req; [discriminate|]. inversion H; subst; clear H. apply Hdis; reflexivity. }
   inversion H; subst; clear H. cbn [s_cache s_over]. split; [reflexivity|split].
   - unfold get_subproject. cbn [s_subs]. rewrite assoc_app_new by exact Es. discriminate.
   - intros x. apply get_subproject_app.
-Qed.
-
-Lemma fallback_of_mono w o st st' n kw s var :
-  (forall x, get_subproject st x = true -> get_subproject st' x = true) ->
-  fallback_of w o st n kw = FbSub s var -> fallback_of w o st' n kw = FbSub s var.
-Proof.
-  intros Hm. unfold fallback_of. destruct (k_fallback kw) as [l|]; [auto|].
-  destruct (k_allow kw) as [[|]|]; try discriminate;
-    destruct (find_dep_provider w n) as [[[|c s0] var0]|]; try discriminate.
-  - destruct (forced o n (c :: s0) || true || k_required kw || get_subproject st (c :: s0)) eqn:E; [|discriminate].
-    intros H. rewrite orb_true_r. cbn [orb]. exact H.
-  - destruct (forced o n (c :: s0) || false || k_required kw) eqn:E1; cbn [orb].
-    + auto.
-    + destruct (get_subproject st (c :: s0)) eqn:E2; [|discriminate].
-      rewrite (Hm _ E2). auto.
 Qed.
 
 (* system versions are never the literal string that marks an unknown version *)
@@ -579,95 +359,6 @@ Proof.
   destruct v as [|a v']; [discriminate|]. intros ->. rewrite orb_false_r.
   destruct (str_eqb (a :: v') s_undefined) eqn:E; [|reflexivity].
   apply str_eqb_eq in E. congruence.
-Qed.
-
-Lemma sub_path_repeat w o st n kw s var r st1 :
-  bad_name n = false -> kw_invalid kw = false ->
-  assoc n (s_over st) = None ->
-  fallback_of w o st n kw = FbSub s var ->
-  get_subproject st s = false ->
-  (forced o n s = false -> system_dep w n (k_version kw) = None /\ is_nofallback (o_wrap_mode o) = false) ->
-  sub_path w st s var n (k_version kw) (k_required kw) = (r, st1) -> r <> OErr ->
-  lookup1 w o st1 n kw = (r, st1).
-Proof.
-  intros Hb Hk Ho Ef Hg Hsys H Hr. unfold sub_path in H.
-  destruct (do_subproject w st s (k_required kw)) as [st'|] eqn:Ed; [|inversion H; congruence].
-  destruct (dsp_spec _ _ _ _ _ Ed) as (Hcache & Hdis & Hmono).
-  pose proof (fallback_of_mono w o st st' n kw s var Hmono Ef) as Ef'.
-  destruct (get_subproject st' s) eqn:Eg.
-  - destruct (fin_vet_cases _ _ _ _ _ _ _ (sub_offer_compat w st' s var n) H Hr)
-      as [(-> & -> & Hv)|(k & v & e & -> & Hd & Hv & Ha)].
-    + (* the subproject does not provide it: not found again *)
-      unfold lookup1. rewrite Hb, Ef'. unfold closed_sub.
-      destruct (sub_offer_compat w st' s var n) as [Hn|[e He]].
-      * rewrite Hn, Eg, Hv. reflexivity.
-      * rewrite He, Hv. reflexivity.
-    + eapply lookup1_hit; eauto.
-  - inversion H; subst; clear H. destruct (Hdis eq_refl) as [Hov Hagain].
-    assert (Hreq : k_required kw = false) by (destruct (k_required kw); [cbn in Hr; congruence|reflexivity]).
-    unfold lookup1. rewrite Hb, Ef'. unfold closed_sub. rewrite Hov, Ho, Eg.
-    assert (Hsp : sub_path w st1 s var n (k_version kw) (k_required kw) = (fail (k_required kw), st1)).
-    { unfold sub_path. rewrite Hreq, Hagain, Eg. reflexivity. }
-    destruct (forced o n s) eqn:Ff; [exact Hsp|].
-    destruct (Hsys eq_refl) as [Hsd Hnf]. unfold sys_path. unfold system_dep in Hsd. rewrite Hnf.
-    destruct (assoc n (w_sys w)) as [v|]; [|exact Hsp].
-    destruct (sys_check (k_version kw) v); [discriminate|exact Hsp].
-Qed.
-
-Lemma sys_path_repeat w o st n kw other r st1 :
-  sys_defined w -> bad_name n = false -> kw_invalid kw = false ->
-  assoc n (s_over st) = None ->
-  sys_path w st n (k_version kw) other = (r, st1) ->
-  (system_dep w n (k_version kw) = None -> other = (r, st1) -> lookup1 w o st1 n kw = (r, st1)) ->
-  lookup1 w o st1 n kw = (r, st1).
-Proof.
-  intros Hsd Hb Hk Ho H Hother. unfold sys_path in H. unfold system_dep in Hother.
-  destruct (assoc n (w_sys w)) as [v|] eqn:Es; [|auto].
-  destruct (sys_check (k_version kw) v) eqn:Ec; [|auto].
-  cbn [fin] in H. inversion H; subst; clear H.
-  eapply lookup1_hit; eauto.
-  - cbn [s_over register]. rewrite Ho. apply assoc_app_new. exact Ho.
-  - apply sys_check_version; eauto.
-Qed.
-
-Lemma over_hit_repeat st n kw d e r st1 :
-  assoc n (s_over st) = Some (d, e) ->
-  fin n (vet (k_version kw) (k_required kw) d) st = (r, st1) -> r <> OErr ->
-  st1 = st.
-Proof.
-  intros Ho H Hr.
-  destruct (vet (k_version kw) (k_required kw) d) as [d'| |]; cbn [fin] in H; inversion H; subst; clear H; auto.
-  cbn [register]. rewrite Ho. apply state_eta.
-Qed.
-
-(* a dependency() call for one name, repeated in the state it left behind, gives the
-   same answer and leaves the state alone *)
-Theorem lookup1_repeat w o st n kw r st1 :
-  sys_defined w -> lookup1 w o st n kw = (r, st1) -> r <> OErr -> lookup1 w o st1 n kw = (r, st1).
-Proof.
-  intros Hsd H Hr. pose proof H as H0. unfold lookup1 in H.
-  destruct (bad_name n) eqn:Hb; [inversion H; congruence|].
-  assert (Hk : kw_invalid kw = false).
-  { destruct (kw_invalid kw) eqn:E; [|reflexivity]. apply (fallback_invalid w o st n) in E. rewrite E in H.
-    inversion H; congruence. }
-  destruct (fallback_of w o st n kw) as [|s var|] eqn:Ef; [| |inversion H; congruence].
-  - (* no fallback subproject *)
-    unfold closed_nosub in H. destruct (assoc n (s_over st)) as [[d e]|] eqn:Ho.
-    + pose proof (over_hit_repeat st n kw d e r st1 Ho H Hr) as E. subst st1. exact H0.
-    + eapply sys_path_repeat; eauto. intros _ Heq. inversion Heq; subst. exact H0.
-  - unfold closed_sub in H. destruct (assoc n (s_over st)) as [[d e]|] eqn:Ho.
-    + pose proof (over_hit_repeat st n kw d e r st1 Ho H Hr) as E. subst st1. exact H0.
-    + destruct (get_subproject st s) eqn:Eg.
-      * destruct (fin_vet_cases _ _ _ _ _ _ _ (sub_offer_compat w st s var n) H Hr)
-          as [(-> & -> & Hv)|(k & v & e & -> & Hd & Hv & Ha)].
-        -- exact H0.
-        -- eapply lookup1_hit; eauto.
-      * destruct (forced o n s) eqn:Ff.
-        -- eapply sub_path_repeat; eauto. rewrite Ff. discriminate.
-        -- eapply sys_path_repeat; eauto. intros Hnone Heq.
-           destruct (is_nofallback (o_wrap_mode o)) eqn:Enf.
-           ++ inversion Heq; subst. exact H0.
-           ++ eapply sub_path_repeat; eauto.
 Qed.
 
 (* ------------------------------------------------------------------ reachable states *)
@@ -716,7 +407,7 @@ Proof.
     + apply Hreg; exact Hc.
     + destruct (required && is_nil rest); [exact Hc|]. apply IH; assumption.
   - assert (Hin : In n (h_names h)) by (apply Hf; left; reflexivity).
-    destruct (assoc n (w_sys w)) as [v|].
+    destruct (assoc (base n) (w_sys w)) as [v|].
     + destruct (sys_check wanted v).
       * cbn [snd]. intros m Hm. cbn [s_over s_cache] in *.
         destruct (str_eqb m n) eqn:E.
@@ -726,8 +417,8 @@ Proof.
     + destruct (required && is_nil rest); cbn [snd]; [exact Hc|]. apply IH; assumption.
   - destruct (negb (h_force h) && h_nofb h).
     + destruct (required && is_nil rest); cbn [snd]; [exact Hc|]. apply IH; assumption.
-    + destruct (do_subproject w st s (required && is_nil rest)) as [st'|] eqn:Ed; [|exact Hc].
-      pose proof (do_subproject_covered _ _ _ _ _ Ed Hc) as Hc'.
+    + destruct (do_subproject w st s (required && is_nil rest) (h_dl h)) as [st'|] eqn:Ed; [|exact Hc].
+      pose proof (do_subproject_covered _ _ _ _ _ _ Ed Hc) as Hc'.
       destruct (get_subproject_dep w h st' s (h_spvar h) wanted) as [[|k v]|]; cbn [snd].
       * destruct required; exact Hc'.
       * apply Hreg; exact Hc'.
@@ -759,19 +450,19 @@ Qed.
    meson.override_dependency / subproject() / dependency() calls in any order *)
 Inductive reach (w : world) (o : opts) : state -> Prop :=
 | reach_start : reach w o st0
-| reach_override st n d over' :
-    reach w o st -> add_override (s_over st) n d true = Ok over' ->
+| reach_override st n sk dl d over' :
+    reach w o st -> override_dep (s_over st) n sk dl d = Ok over' ->
     reach w o (mkState over' (s_cache st) (s_subs st))
-| reach_subproject st s req st' :
-    reach w o st -> do_subproject w st s req = Ok st' -> reach w o st'
+| reach_subproject st s req dl st' :
+    reach w o st -> do_subproject w st s req dl = Ok st' -> reach w o st'
 | reach_lookup st names kw :
     reach w o st -> reach w o (snd (lookup w o st names kw)).
 
 Lemma reach_covered w o st : reach w o st -> cache_covered st.
 Proof.
-  induction 1 as [|st n d over' _ IH Ha|st s req st' _ IH Hd|st names kw _ IH].
+  induction 1 as [|st n sk dl d over' _ IH Ha|st s req dl st' _ IH Hd|st names kw _ IH].
   - intros n _. reflexivity.
-  - intros m Hm. cbn in *. apply IH. eapply add_override_grows; eauto.
+  - intros m Hm. cbn in *. apply IH. eapply override_dep_grows; eauto.
   - eapply do_subproject_covered; eauto.
   - apply lookup_covered; exact IH.
 Qed.
@@ -783,33 +474,17 @@ Fixpoint again (w : world) (o : opts) (st : state) (names : list str) (kw : kwar
   | S k' => let '(r, st') := lookup w o st names kw in r :: again w o st' names kw k'
   end.
 
-Theorem repeat_lookup_same w o st n kw r st1 :
-  reach w o st -> sys_defined w -> n <> [] -> fallback_named kw ->
-  lookup w o st [n] kw = (r, st1) -> r <> OErr ->
-  forall k, again w o st1 [n] kw k = repeat r k.
-Proof.
-  intros Hr Hsd Hn Hf H Hne.
-  pose proof (reach_covered _ _ _ Hr) as Hc.
-  assert (Hc1 : cache_covered st1).
-  { pose proof (lookup_covered w o st [n] kw Hc) as X. rewrite H in X. exact X. }
-  rewrite (lookup_closed w o st n kw Hn Hc Hf) in H.
-  pose proof (lookup1_repeat w o st n kw r st1 Hsd H Hne) as H1.
-  rewrite <- (lookup_closed w o st1 n kw Hn Hc1 Hf) in H1.
-  induction k as [|k IH]; [reflexivity|].
-  cbn [again repeat]. rewrite H1. f_equal. exact IH.
-Qed.
-
 (* ... which fails when pkg-config reports the version string "undefined":
    dependency('foo', version: '!=1', required: false) twice *)
 Definition w_undef : world := mkWorld [(s2l "foo", s2l "undefined")] [] [].
-Definition kw_undef : kwargs := mkKw false [s2l "!=1"] None None.
+Definition kw_undef : kwargs := mkKw false [s2l "!=1"] None None None None.
 
 Theorem repeat_lookup_refuted :
   exists w o st names kw r st1,
     reach w o st /\ lookup w o st names kw = (r, st1) /\ r <> OErr /\
     fst (lookup w o st1 names kw) <> r.
 Proof.
-  exists w_undef, (mkOpts WMdefault []), st0, [s2l "foo"], kw_undef.
+  exists w_undef, (mkOpts WMdefault [] DShared []), st0, [s2l "foo"], kw_undef.
   exists (OFound (Found KSystem (s2l "undefined"))). eexists.
   split; [constructor|]. split; [vm_compute; reflexivity|].
   split; [discriminate|]. intro X. vm_compute in X. discriminate X.
